@@ -76,19 +76,29 @@ def kwargs_model(ctx, fv) -> T.Dict[str, T.Callable[[], rl.R]]:
             tagvar = n.targets[0].id
     ctx.require(tagvar is not None, "format_version (v1): release tag variable not found")
 
+    def concat(e: ast.AST, tag: str) -> str:
+        if isinstance(e, ast.Constant) and isinstance(e.value, str):
+            return e.value
+        if isinstance(e, ast.Name) and e.id == tagvar:
+            return tag
+        if isinstance(e, ast.Subscript) and unparse(e.value).endswith("PEP440_TAG_BY_TAG") and unparse(e.slice) == tagvar:
+            return t2p[tag]
+        if isinstance(e, ast.BinOp) and isinstance(e.op, ast.Add):
+            return concat(e.left, tag) + concat(e.right, tag)
+        raise AnalysisError(f"C20/R1: kwargs expression not enumerated: {unparse(e)}")
+
     def strs_of(exprs: T.List[ast.AST]) -> T.List[str]:
+        # the function assigns one expression under `tag == 'final'` and another otherwise; constants are the
+        # final-branch values, expressions mentioning the tag are evaluated for every non-final tag
         out: T.Set[str] = set()
         for e in exprs:
-            if isinstance(e, ast.Constant) and isinstance(e.value, str):
-                out.add(e.value)
-            elif isinstance(e, ast.BinOp) and isinstance(e.op, ast.Add) and isinstance(e.left, ast.Constant) and unparse(e.right) == tagvar:
-                out |= {e.left.value + t for t in nonfinal}
-            elif isinstance(e, ast.BinOp) and isinstance(e.op, ast.Add) and isinstance(e.right, ast.Constant) and "PEP440_TAG_BY_TAG" in unparse(e.left):
-                out |= {t2p[t] + e.right.value for t in nonfinal}
-            elif isinstance(e, ast.Name) and e.id == tagvar:
+            mentions_tag = any((isinstance(x, ast.Name) and x.id == tagvar) for x in ast.walk(e))
+            if not mentions_tag:
+                out.add(concat(e, "final"))
+            elif isinstance(e, ast.Name):
                 out |= set(LEGACY_TAGS)
             else:
-                raise AnalysisError(f"C20/R1: kwargs expression not enumerated: {unparse(e)}")
+                out |= {concat(e, t) for t in nonfinal}
         return sorted(out)
 
     for k in ("release", "pep440_tag", "release_tag"):
